@@ -63,3 +63,20 @@ package structs
 //@ requires entry != nil && src != nil
 //@ ensures[formula] prec == 3*exactCount(entry.EnterpriseMeta.NamespaceOrDefault(), entry.Name) + exactCount(src.EnterpriseMeta.NamespaceOrDefault(), src.Name) + 1
 //@ modifies nothing
+
+//@ file acl.go
+
+//@ func ACLToken.HasExpirationTime
+//@ props C09
+//@ results has
+//@ requires t != nil
+//@ ensures[spec] has <==> (t.ExpirationTime != nil && *t.ExpirationTime != time.Time{})
+//@ modifies nothing
+
+// a token is expired exactly when it has an expiration time that lies strictly before the reference instant
+//@ func ACLToken.IsExpired
+//@ props C09
+//@ results expired
+//@ requires t != nil
+//@ ensures[spec] expired <==> (asOf != time.Time{} && t.ExpirationTime != nil && *t.ExpirationTime != time.Time{} && timeBefore(*t.ExpirationTime, asOf))
+//@ modifies nothing
